@@ -25,7 +25,8 @@ LEVEL_TEXT = ("Samples of size 4e4 (quick) / 4e5 (thorough) from random LGANMs (
               "about 6% (quick) / 2% (thorough) and mean shifts above 0.04 / 0.012 standard deviations.")
 LEVEL_NOTE = "Statistical: |z| > 6.5 is a suspicion, confirmed only if the same entry exceeds 5 on three fresh seeds at 4x the size; DKW at delta = 1e-12."
 RULE = ("cases: one sampled array = (model, interventions, n, seed).  distinct = distinct canonical case; non-trivial = p >= 2 with a "
-        "non-diagonal population covariance, or an intervention, or a singular covariance")
+        "non-diagonal population covariance, or an intervention, or a singular covariance"
+        " Also: intervention dicts in random key order, interventions in the model's own (tiny / huge) units, one dict object swept in place between calls (the reference law comes from a separate fresh instance), check_valid='warn'/'raise', joint normality by random projections, lag-2/7 and half-sample homogeneity statistics.")
 ASSUMPTIONS = ["the population law used as reference is the library's sample(population=True) (validated separately by C01)",
                "targets that are both shift- and noise-intervened are excluded from the ANM/LGANM comparison (as in the property)"]
 EXHAUSTIVE = {"quick": False, "thorough": False}
